@@ -51,7 +51,7 @@ pub fn spec(id: &str) -> Option<HistProp> {
             id: "C13",
             quick: 2400,
             thorough: 10_000,
-            rule: "request sequences (<=25) over all HTTP routes written as raw HTTP/1.1 to the store's unix socket: valid appends (Content-Length and chunked bodies, xs-meta, ttl, context), imports, removes, lookups, heads, NDJSON and SSE reads with last-id/limit/context-id, interleaved with requests that must be refused (bad ids, TTLs, contexts, xs-meta payloads incl. raw non-ASCII bytes, option strings, CAS hashes, import bodies, unknown methods); after every request the store is compared with the reference model through the Store API; non-trivial = a refused request between two succeeding mutations, or an SSE read, or a malformed xs-meta; distinct by op-kind sequence hash",
+            rule: "request sequences (<=25) over all HTTP routes written as raw HTTP/1.1 to the store's unix socket: valid appends (Content-Length and chunked bodies, xs-meta, ttl, context), imports, removes, lookups, heads, NDJSON and SSE reads with last-id/limit/context-id, interleaved with requests that must be refused (bad ids, TTLs, contexts, xs-meta payloads incl. raw non-ASCII bytes and invalid UTF-8 inside JSON strings, option strings, CAS hashes, import bodies, unknown methods, and sequences of such requests on one keep-alive connection); after every request the store is compared with the reference model through the Store API; non-trivial = a refused request between two succeeding mutations, or an SSE read, or a malformed xs-meta; distinct by op-kind sequence hash",
         },
         _ => return None,
     })
@@ -170,20 +170,44 @@ pub fn run(id: &str, tier: Tier, seed: u64, replay: Option<&std::path::Path>) ->
         Tier::Quick => hp.quick,
         Tier::Thorough => hp.thorough,
     };
-    let out = run_sharded(id, seed, cases, 300, || hist_strategy(&prof), test);
+    let mut out = run_sharded(id, seed, cases, 300, || hist_strategy(&prof), test);
+    // the same histories through the HTTP routes (GET /, GET /{id}, GET /head, POST, DELETE,
+    // POST /import) for the properties whose observation points include them
+    let mut http_cases = 0;
+    if id != "C13" && out.failure.is_none() && out.infra.is_none() {
+        let mut hp2 = prof.clone();
+        hp2.access = Access::Http;
+        hp2.topics = TopicMode::HttpSafe;
+        hp2.max_ops = hp2.max_ops.min(25);
+        http_cases = cases / 8;
+        let o2 = run_sharded(&format!("{id}-http"), seed, http_cases, 300, || hist_strategy(&hp2), test);
+        out.stats.evaluations += o2.stats.evaluations;
+        out.stats.nontrivial += o2.stats.nontrivial;
+        out.stats.checks += o2.stats.checks;
+        out.stats.shapes.extend(o2.stats.shapes);
+        for (k, v) in o2.stats.labels {
+            *out.stats.labels.entry(k).or_insert(0) += v;
+        }
+        for (k, v) in o2.stats.known {
+            *out.stats.known.entry(k).or_insert(0) += v;
+        }
+        out.stats.samples.extend(o2.stats.samples.into_iter().take(1));
+        out.failure = o2.failure;
+        out.infra = o2.infra;
+    }
     let report = Report {
         prop: id,
         tier,
         seed,
         level: "exploration",
-        rule: hp.rule,
+        rule: &format!("{}; one case in nine runs the same operations through the HTTP routes (except C13, which is HTTP throughout)", hp.rule),
         assumptions: vec![
             "TTL expiry is driven by the frozen virtual clock of the `verif` feature (ids keep real timestamps)".into(),
             "imports that reuse a stored id with different content and imports of ephemeral frames are outside the generated domain".into(),
             "frames whose retention is decided asynchronously (GC thread) are three-valued until a settled point; checks with an undetermined frame in scope are counted under labels.had-three-valued-check".into(),
             "reopen = SIGKILL of the executor process and a new process on the same directory".into(),
         ],
-        extra: json!({"generator_profile": prof.name}),
+        extra: json!({"generator_profile": prof.name, "cases_through_http_api": http_cases}),
     };
     finish(&report, out, started, |c| super::report_as(id, c))
 }
